@@ -3,7 +3,7 @@ from pv import obs_regex as R
 from pv import obs_tables as T
 
 KEYS = ['parso.python.prefix.PrefixPart.end_pos', 'parso.python.prefix.PrefixPart.__init__',
-        'parso.python.prefix.PrefixPart.create_spacing_part']
+        'parso.python.prefix.PrefixPart.create_spacing_part', 'parso.python.tokenize._close_fstring_if_necessary']
 
 
 def _regex():
